@@ -69,7 +69,7 @@ def parseAlgs : List String → Option (List AlgSpec × List String)
 
 inductive MsgSpec where
   | raw (b : Bytes)
-  | ms (sid : Nat) (uid : Nat ⊕ String) (vals : List Nat)
+  | ms (sid : Nat) (uid : Nat ⊕ String) (vals : List Nat) (count : Option Nat := none)
 
 inductive Item where
   | dgram (addr : Nat) (msgs : List MsgSpec)
@@ -102,6 +102,21 @@ def parseMsgSpecS (s : String) : Option MsgSpec :=
                               else (decDigits uid).bind fun n => if n < 2^32 then some (.inl n) else none)
       some (.ms sid u vs)
     | _ => none
+  | "MC" :: sid :: rest => do
+    -- a well-framed measurement with an explicit count word
+    match rest with
+    | [uid, count, vals] =>
+      let sid ← decDigits sid
+      if sid ≥ 2^32 then none
+      let cnt ← decDigits count
+      if cnt ≥ 2^32 then none
+      let vs ← (if vals = "-" then some [] else (vals.splitOn ";").mapM decDigits)
+      if vs.any (· ≥ 2^64) then none
+      if 16 + 8 * vs.length > 65535 then none
+      let u : Nat ⊕ String ← (if uid.startsWith "u:" then some (.inr (uid.drop 2).toString)
+                              else (decDigits uid).bind fun n => if n < 2^32 then some (.inl n) else none)
+      some (.ms sid u vs (some cnt))
+    | _ => none
   | ["RD", id] => do
     let id ← decDigits id
     if id ≥ 2^32 then none
@@ -127,11 +142,11 @@ def parseItem (s : String) : Option Item :=
 
 def renderMsg (known : String → Option Nat) : MsgSpec → Bytes
   | .raw b => b
-  | .ms sid uid vals =>
+  | .ms sid uid vals cnt =>
     let u := match uid with
       | .inl n => n
       | .inr p => (known p).getD 0
-    serializeHeader 1 (16 + 8 * vals.length) sid ++ le32 u ++ le32 vals.length ++ vals.flatMap le64
+    serializeHeader 1 (16 + 8 * vals.length) sid ++ le32 u ++ le32 (cnt.getD vals.length) ++ vals.flatMap le64
 
 def renderItem (known : String → Option Nat) : Item → Rx
   | .dgram a ms => .dgram a (ms.flatMap (renderMsg known))
